@@ -1,5 +1,57 @@
-(* C10 — non-vacuity examples. *)
-From Coq Require Import ZArith List.
-From FV Require Import Lib.RustInt C10.Model C10.Proofs.
+(* C10 — non-vacuity examples for the hypotheses of Props.v, and refuted variants. *)
+From Coq Require Import ZArith List QArith Lia.
+From FV Require Import Lib.RustInt C10.Model C10.Proofs C10.PointProofs C10.IupProofs.
 Import ListNotations.
 Open Scope Z_scope.
+
+(* the byte string of the repo's own unit test (PACKED_DELTA_BYTES) is what the model writes *)
+Example c10_deltas_example :
+  encode_deltas [10; -105; 0; -58; 0; 0; 0; 0; 0; 0; 0; 0; 4130; -1228] = [3; 10; 151; 0; 198; 135; 65; 16; 34; 251; 52]
+  /\ Forall i32 [10; -105; 0; -58; 0; 0; 0; 0; 0; 0; 0; 0; 4130; -1228].
+Proof. split; [reflexivity|]. repeat constructor; unfold i32; lia. Qed.
+
+(* the run cap: 65 byte-sized deltas are split 64 + 1; a single zero is inlined in a byte run, two are not;
+   a single byte between words is inlined, a byte followed by a byte is not *)
+Example c10_run_cap : map run_len (delta_runs (repeat 7 65)) = [64; 1]%nat.
+Proof. reflexivity. Qed.
+Example c10_zero_inlining :
+  delta_runs [1; 0; 1] = [OneByte [1; 0; 1]] /\ delta_runs [1; 0; 0; 1] = [OneByte [1]; Zeros 2; OneByte [1]].
+Proof. split; reflexivity. Qed.
+Example c10_byte_inlining :
+  delta_runs [300; 1; 300] = [TwoBytes [300; 1; 300]] /\ delta_runs [300; 1; 1; 300] = [TwoBytes [300]; OneByte [1; 1]; TwoBytes [300]].
+Proof. split; reflexivity. Qed.
+
+(* point numbers: the repo's unit-test vector; hypotheses of packed_points_roundtrip hold for it *)
+Example c10_points_example :
+  encode_points (PSome [5; 25; 225; 1002; 2002; 2008; 2228; 10000])
+  = WBytes [8; 2; 5; 20; 200; 129; 3; 9; 3; 232; 1; 6; 220; 128; 30; 92]
+  /\ nondec 0 [5; 25; 225; 1002; 2002; 2008; 2228; 10000].
+Proof. split; [reflexivity|]. cbn [nondec]. repeat split; lia. Qed.
+
+(* REFUTED without the non-emptiness hypothesis: PackedPointNumbers::Some(vec![]) is written as the single
+   byte 0, which reads back as "all points" — the empty set is not representable.  (GlyphDeltas uses exactly
+   this encoding for a tuple none of whose deltas is required; see notes/C10.md.) *)
+Example c10_points_empty_roundtrip_refuted :
+  exists pts, nondec 0 pts /\ encode_points (PSome pts) = WBytes [0] /\ decode_points [0] <> RSome pts.
+Proof. exists []. repeat split. discriminate. Qed.
+
+(* REFUTED for unsorted input: the writer panics (u16 subtraction overflow in the strict profile) *)
+Example c10_points_unsorted_refuted : encode_points (PSome [3; 2]) = WPanic.
+Proof. reflexivity. Qed.
+
+(* IUP: the contour of the repo's scenario 8 takes the forced-point branch (must-encode = {0, 4} as the
+   repo's test expects); hypotheses of iup_sound_forced_branch are met by the exact kernel *)
+Definition ex_coords : list (Z * Z) := [(131, 430); (131, 350); (470, 350); (470, 430); (131, 330)].
+Definition ex_deltas : list (Z * Z) := [(-15, 115); (-15, 30); (124, 30); (124, 115); (-39, 26)].
+Definition ex_me := must_encode_at (map qpt_of ex_deltas) (map qpt_of ex_coords) (0 # 1)%Q.
+Definition ex_ci_rot := fun mid => can_iup_in_between (rotate_right mid (map qpt_of ex_deltas)) (rotate_right mid (map qpt_of ex_coords)) (0 # 1)%Q.
+Definition ex_ci_dbl := can_iup_in_between (map qpt_of ex_deltas ++ map qpt_of ex_deltas) (map qpt_of ex_coords ++ map qpt_of ex_coords) (0 # 1)%Q.
+Example c10_iup_forced_example :
+  filter ex_me (seq 0 5) = [0; 4]%nat /\ contour_mask ex_me ex_ci_rot ex_ci_dbl 5 = Some [true; false; true; true; true].
+Proof. split; vm_compute; reflexivity. Qed.
+
+(* IUP: a contour with no forced point (the repo's scenario 6 shape) takes the other branch *)
+Definition ex6 : list (Z * Z) := [(0, 0); (10, 10); (20, 20); (30, 30)].
+Example c10_iup_unforced_example :
+  iup_contour_optimize ex6 ex6 (0 # 1)%Q = Some [(0, 0, true); (10, 10, false); (20, 20, false); (30, 30, true)].
+Proof. vm_compute. reflexivity. Qed.
